@@ -36,6 +36,7 @@ ASSUMPTIONS = ["distinct class names (documented assumption of the orderer)"]
 KINDS = [
     "properties", "additionalProperties", "patternProperties", "propertyNames", "dependencies",
     "items", "tuple-items", "additionalItems", "additionalItems/single-items", "additionalItems/no-items", "contains", "anyOf", "oneOf", "allOf", "not", "nested-properties", "nested-twice",
+    "patternProperties/dotted-key", "dependencies/dotted-key", "untyped-properties/dotted-key", "patternProperties/star-key",
 ]
 BUDGET = 400_000
 
@@ -55,6 +56,20 @@ def attach(src, targets_by_kind, tag):
             dd = dict(src.dependencies or {}) if isinstance(src.dependencies, dict) else {}
             dd[name] = tgt
             src.dependencies = dd
+        elif kind == "patternProperties/dotted-key":
+            pp = dict(src.patternProperties or {}) if isinstance(src.patternProperties, dict) else {}
+            pp["^x-%s\\..*$" % name] = tgt
+            src.patternProperties = pp
+        elif kind == "patternProperties/star-key":
+            pp = dict(src.patternProperties or {}) if isinstance(src.patternProperties, dict) else {}
+            pp["*" if not pp else "%s*" % name] = tgt
+            src.patternProperties = pp
+        elif kind == "dependencies/dotted-key":
+            dd = dict(src.dependencies or {}) if isinstance(src.dependencies, dict) else {}
+            dd["billing.%s" % name] = tgt
+            src.dependencies = dd
+        elif kind == "untyped-properties/dotted-key":
+            src.properties[name] = Property(Element(properties={"a.b": Property(tgt), "*": Property(Array(tgt))}))
         elif kind in ("additionalProperties", "propertyNames"):
             single.setdefault(kind, []).append(tgt)
         elif kind == "items":
